@@ -69,6 +69,17 @@ fn nontrivial_point(p: &Prepared, i: u64) -> bool {
     if kind.starts_with("catalog") || kind.starts_with("meta") || kind == "wal_truncate" || kind == "wal_rotate" || kind == "file_remove" || kind == "file_create" {
         return true;
     }
+    // right after the acknowledgement of a statement that dirtied >= 2 pages (process killed while idle)
+    if kind == "ack" {
+        let mut lo = 0u64;
+        for (_, _, pts, _) in &p.acks {
+            if *pts + 1 == i {
+                return ((lo + 1)..=*pts).filter(|j| p.points.get(*j as usize - 1).map(|k| k == "page_mut").unwrap_or(false)).count() >= 2;
+            }
+            lo = *pts;
+        }
+        return false;
+    }
     // inside a statement that dirties >= 2 pages, after its first page mutation
     let mut lo = 0u64;
     for (_, _, pts, _) in &p.acks {
@@ -163,6 +174,9 @@ fn examine(prop: &str, p: &Prepared, w: &Workload, crash_at: u64, power: bool, k
                 out.add_class("open_failed_before_first_ack");
             }
         }
+        Observed::Died(e) if e.starts_with("TIMEOUT") => {
+            out.add_class("observer_timed_out");
+        }
         Observed::Died(e) if stable.is_none() => {
             out.add_class(format!("reopen_died_before_first_ack:{}", e.chars().take(40).collect::<String>()));
         }
@@ -207,7 +221,9 @@ fn examine(prop: &str, p: &Prepared, w: &Workload, crash_at: u64, power: bool, k
                     let sref = &p.refs[cand_idx[0]].obs;
                     // the reference state right after the in-flight statement (inside its transaction, if any):
                     // rows in both are untouched by everything that was still uncommitted at the crash
-                    let nref = p.refs.get(acked).filter(|r| r.tables.len() == p.refs[cand_idx[0]].tables.len() && r.tables.iter().zip(&p.refs[cand_idx[0]].tables).all(|(a, b)| a.name == b.name && a.cols == b.cols && a.indexes == b.indexes)).map(|r| &r.obs);
+                    // (killed while idle, kind `ack`: nothing is in flight; the uncommitted work is what the open
+                    // transaction, if any, has done up to the last acknowledged statement)
+                    let nref = p.refs.get(if kind == "ack" { acked.saturating_sub(1) } else { acked }).filter(|r| r.tables.len() == p.refs[cand_idx[0]].tables.len() && r.tables.iter().zip(&p.refs[cand_idx[0]].tables).all(|(a, b)| a.name == b.name && a.cols == b.cols && a.indexes == b.indexes)).map(|r| &r.obs);
                     let rec = &obs_list[0];
                     let mut missing: Option<String> = None;
                     'tables: for (name, st) in sref.iter() {
@@ -234,7 +250,10 @@ fn examine(prop: &str, p: &Prepared, w: &Workload, crash_at: u64, power: bool, k
                                 }
                             }
                             (Ok(_), Err(e)) => {
-                                missing = Some(format!("scan|error: SELECT * FROM {} fails: {}", name, e));
+                                // a row of the torn in-flight statement whose TOAST chunks did not make it makes the
+                                // whole scan fail: named separately (listed finding when the in-flight statement writes one)
+                                let f = if e.contains("TOAST chunk not found") { "scan|error_dangling_toast_pointer" } else { "scan|error" };
+                                missing = Some(format!("{}: SELECT * FROM {} fails: {}", f, name, e));
                                 break;
                             }
                             _ => {}
@@ -245,6 +264,20 @@ fn examine(prop: &str, p: &Prepared, w: &Workload, crash_at: u64, power: bool, k
                     match missing {
                         Some(m) => {
                             let f = m.split(':').next().unwrap_or("").to_string();
+                            // the in-flight statement writes a toasted value, or rewrites / deletes rows of a table that holds one
+                            let inflight_toast = kind != "ack"
+                                && p.refs.get(acked).map(|r| {
+                                    r.long_sql || {
+                                        let mut it = r.sql.split_whitespace();
+                                        let tname = match it.next() {
+                                            Some("UPDATE") => it.next(),
+                                            Some("DELETE") => it.nth(1),
+                                            _ => None,
+                                        };
+                                        tname.map(|n| p.refs[cand_idx[0]].tables.iter().any(|t| t.name == n && t.rows.iter().any(|row| row.iter().any(|v| matches!(v, Val::Text(s) if s.len() > 1000))))).unwrap_or(false)
+                                    }
+                                }).unwrap_or(false);
+                            let stmt_in_flight = if inflight_toast { format!("{}+inflight_touches_toasted_value", stmt_in_flight) } else { stmt_in_flight.to_string() };
                             out.set_fail(format!("C01|{}|{}|acknowledged_missing|{}|{}", model, kind, f, stmt_in_flight), describe(&format!("acknowledged effects are missing after recovery: {}", m.chars().take(500).collect::<String>())));
                         }
                         None => out.add_class("other_property:C02_not_a_prefix"),
@@ -272,6 +305,9 @@ fn examine(prop: &str, p: &Prepared, w: &Workload, crash_at: u64, power: bool, k
                     } else {
                         out.add_class("degraded_open_failed");
                     }
+                }
+                Observed::Died(e) if e.starts_with("TIMEOUT") => {
+                    out.add_class("observer_timed_out");
                 }
                 Observed::Died(e) => {
                     out.set_fail(format!("C02|kill|{}|streaming_recovery_died|{}", kind, stmt_in_flight), describe(&format!("the process running PRAGMA recover_wal died: {}", e)));
@@ -336,7 +372,10 @@ fn workload_strategy(prop: &'static str, gates: Vec<String>) -> BoxedStrategy<Wo
     };
     let sync = if prop == "C01" { Just(2u8).boxed() } else { (0u8..3).boxed() };
     let ck = if prop == "C40" { Just(false).boxed() } else { any::<bool>().boxed() };
-    (history_strategy(&p), sync, ck)
+    // half of the C01/C02 workloads generate whole transactions (mostly committed) between autocommit statements
+    let pt = Profile { txn_blocks: true, txn_blocks_commit: true, max_ops: 36, ..p.clone() };
+    let hist = if ddl_heavy { history_strategy(&p) } else { prop_oneof![history_strategy(&p), history_strategy(&pt)].boxed() };
+    (hist, sync, ck)
         .prop_map(move |(h, sync, ckpt_schema)| Workload {
             setup: vec!["PRAGMA wal=ON".to_string(), format!("PRAGMA synchronous={}", ["OFF", "NORMAL", "FULL"][sync as usize])],
             h,
@@ -391,7 +430,7 @@ pub fn main(prop: &'static str, tier: Tier, replay: Option<String>) -> i32 {
         (_, Tier::Thorough) => (30, 100_000),
     };
     ctx.set_rule(match prop {
-        "C01" => "E-hist workloads (DDL, DML on indexed tables, explicit transactions, checkpoints; wide keys so pages split) run in a child process with PRAGMA wal=ON, synchronous=FULL; every hook point (page mutation, file create/grow/remove, WAL frame/flush/sync/truncate/rotate, catalog and meta writes and syncs, mmap syncs) is numbered; the child is ended with _exit at chosen points (quick: stratified by point kind, thorough: every point) and the directory is reopened under the kill model (as left) and the power-loss model (each file cut back to its last synced bytes). Oracle: the recovered observation equals the reference run's observation at the last acknowledged statement boundary outside a transaction, or that plus the whole in-flight statement/transaction. Non-trivial = the crash point lies inside a statement after its first of >= 2 page mutations, or at a catalog/meta/WAL-truncate/rotate/file-create/remove point; distinct by (workload, point, model).",
+        "C01" => "E-hist workloads (DDL, DML on indexed tables, explicit transactions, checkpoints; wide keys so pages split) run in a child process with PRAGMA wal=ON, synchronous=FULL; every hook point (statement acknowledged, page mutation, file create/grow/remove, WAL frame/flush/sync/truncate/rotate, catalog and meta writes and syncs, mmap syncs) is numbered; the child is ended with _exit at chosen points (quick: stratified by point kind, thorough: every point) and the directory is reopened under the kill model (as left) and the power-loss model (each file cut back to its last synced bytes). Oracle: the recovered observation equals the reference run's observation at the last acknowledged statement boundary outside a transaction, or that plus the whole in-flight statement/transaction. Non-trivial = the crash point lies inside a statement after its first of >= 2 page mutations, right after the acknowledgement of such a statement (kind `ack`: killed while idle), or at a catalog/meta/WAL-truncate/rotate/file-create/remove point; distinct by (workload, point, model).",
         "C02" => "same engine as C01 with synchronous OFF/NORMAL/FULL under the kill model and FULL under the power-loss model. Oracle: reopening succeeds, every table scan and index probe works and agrees, and the observation equals a reference state at a statement boundary: the acknowledged prefix, or that plus the complete in-flight statement/transaction (never part of it). Non-trivial as for C01.",
         _ => "DDL-heavy E-hist workloads (CREATE/DROP TABLE and INDEX, ALTER) with crash points restricted to catalog_*, meta_*, file_create/remove/rename kinds, kill and power-loss models. Oracle: reopening succeeds and every table and index that existed before the interrupted DDL statement is still there with its rows (observation equals the reference at the previous or the next statement boundary). Non-trivial = every chosen point (all lie inside a catalog/meta/file-set rewrite).",
     });
@@ -488,6 +527,10 @@ pub fn main(prop: &'static str, tier: Tier, replay: Option<String>) -> i32 {
                     ctx.count_eval(1);
                     for c in &out.classes {
                         ctx.class(c, 1);
+                    }
+                    if out.classes.iter().any(|c| c == "observer_timed_out") {
+                        let path = ctx.write_replay("watchdog|observer_timed_out", "the observer of this crash case did not finish within 120 s", &serde_json::to_value(&Case { w: w.clone(), crash_at: i, power }).unwrap());
+                        ctx.inconclusive(format!("a recovery observer hit the 120 s watchdog (hang or overloaded machine): no verdict for that crash point; case saved as {}", path.display()));
                     }
                     if let Some(h) = out.nontrivial {
                         ctx.count_nontrivial(h);
